@@ -156,7 +156,7 @@ func (vc *VC) run() {
 	vc.entry = entry.clone()
 	// preconditions
 	if vc.fi != nil {
-		if pc := vc.P.pcs[vc.fi.pkg.PkgPath]; pc != nil {
+		if pc := vc.P.pcs[vc.fi.pkg.PkgPath]; pc != nil && !vc.fi.fc.NoAxioms {
 			vc.addAxioms(vc.fi.pkg, pc)
 		}
 		for _, cl := range vc.fi.fc.Requires {
